@@ -338,6 +338,25 @@ impl Prop for C09 {
                     Some(LineCase::new(w, Expect::Value(date_val(want), 0.0), "day-word").with_lang(&l).with_now(now))
                 },
             ));
+            // a date kept in a session variable while the default zone of the calculator changes
+            f.push(Family::new(
+                "difference-after-zone-switch",
+                Mode::Full,
+                "'x = A' evaluated through a session under default zone Z1, then set_timezone(Z2) on the same calculator, then 'x to B' and 'B to x' on the same session, for A, B over 6 dates (month ends, a leap day, year ends) and Z1, Z2 over [UTC, CET, EST, GMT+5, GMT-12, GMT+14]: still the absolute number of days between the two calendar dates",
+                move |ch| {
+                    let dates = [(2020i64, 1i64, 1i64), (2020, 1, 3), (2020, 2, 29), (2019, 12, 31), (2021, 3, 1), (1999, 12, 31)];
+                    let zones = [None, Some("CET"), Some("EST"), Some("GMT+5"), Some("GMT-12"), Some("GMT+14")];
+                    let a = *ch.pick(&dates);
+                    let b = *ch.pick(&dates);
+                    let z1 = *ch.pick(&zones);
+                    let z2 = ch.pick(&zones).unwrap_or("UTC");
+                    let reversed = ch.flag();
+                    let days = (cal::days_from_civil(a.0, a.1, a.2) - cal::days_from_civil(b.0, b.1, b.2)).abs();
+                    let l2 = if reversed { format!("{} to x", dmy(b)) } else { format!("x to {}", dmy(b)) };
+                    let cfg = crate::runner::Cfg { tz: z1.map(|s| s.to_string()), ..Default::default() };
+                    Some(LineCase::new(format!("x = {}\n{}", dmy(a), l2), Expect::Value(Val::Duration(days * 86400), 0.0), &format!("zone-switch:{}", z2)).with_cfg(cfg))
+                },
+            ));
             // the three words stay consecutive whatever zone is configured and whatever the time of
             // day is (which calendar day 'today' is under a non-UTC zone is not prescribed: only the
             // differences are compared)
@@ -364,6 +383,24 @@ impl Prop for C09 {
     }
 
     fn exec(&self, ctx: &mut Ctx, case: &LineCase) -> Verdict {
+        if let Some(z2) = case.tag.strip_prefix("zone-switch:") {
+            // line 1 on a new session under the configured zone, then set_timezone(z2) on the SAME
+            // calculator, then line 2 on the same session; the verdict is about line 2
+            let mut lines = case.text.split('\n');
+            let (l1, l2) = (lines.next().unwrap_or(""), lines.next().unwrap_or(""));
+            let mut calc = ctx.fresh(&case.cfg);
+            let mut session = smartcalc::Session::new();
+            session.set_language(case.lang.clone());
+            let first = crate::obs::eval_session(&calc, &mut session, Some(l1));
+            let switched = calc.set_timezone(z2.to_string());
+            let second = crate::obs::eval_session(&calc, &mut session, Some(l2));
+            let single = LineCase { text: l2.to_string(), ..case.clone() };
+            let mut v = super::common::judge(&single, &second);
+            v.input = format!("{} ;; set_timezone({}) ;; {}", super::common::input_of(&LineCase { text: l1.to_string(), ..case.clone() }), z2, l2);
+            v.evals = 2;
+            v.observed = format!("{} ;; {:?} ;; {}", first.brief(), switched.is_ok(), second.brief());
+            return v;
+        }
         exec_line(ctx, case)
     }
 
